@@ -112,7 +112,43 @@ pub struct Script {
     pub ty: Ty,
 }
 
-fn real_cmd(ctx: &Context, cmd: &SmtCommand) -> String {
+/// a writer that fails after `left` bytes (a full pipe to a dead solver, a fixed-size buffer)
+struct FailingWriter {
+    left: usize,
+}
+impl std::io::Write for FailingWriter {
+    fn write(&mut self, buf: &[u8]) -> std::io::Result<usize> {
+        if buf.len() > self.left {
+            self.left = 0;
+            return Err(std::io::Error::new(std::io::ErrorKind::BrokenPipe, "harness: writer full"));
+        }
+        self.left -= buf.len();
+        Ok(buf.len())
+    }
+    fn flush(&mut self) -> std::io::Result<()> {
+        Ok(())
+    }
+}
+
+thread_local! {
+    static REAL_CMD_CALLS: std::cell::Cell<u64> = const { std::cell::Cell::new(0) };
+}
+
+/// The real writer. Every fifth call on a thread is preceded by a serialisation of the same command into a
+/// writer that fails part-way (the writer must not carry state from an aborted term into the next one: the
+/// text produced afterwards is what the solver judges, as for every other call).
+pub fn real_cmd(ctx: &Context, cmd: &SmtCommand) -> String {
+    let n = REAL_CMD_CALLS.with(|c| {
+        c.set(c.get() + 1);
+        c.get()
+    });
+    if n % 5 == 0 {
+        let mut probe: Vec<u8> = vec![];
+        if serialize_cmd(&mut probe, Some(ctx), cmd).is_ok() && probe.len() > 8 {
+            let mut w = FailingWriter { left: 3 + (n as usize % (probe.len() - 4)) };
+            let _ = serialize_cmd(&mut w, Some(ctx), cmd);
+        }
+    }
     let mut buf: Vec<u8> = vec![];
     serialize_cmd(&mut buf, Some(ctx), cmd).expect("serialize_cmd failed");
     String::from_utf8(buf).expect("serialize_cmd wrote non-UTF-8")
